@@ -13,10 +13,13 @@ results = `;`-joined: ok | token | E:… | tags=<n>=<r>,… | val=<hex|~> | pm=<
 state   = tip=<n>:<rev> tags=… conf=… lock=<T|F> revs=<k,k…>   (dictionaries sorted)
 The remote run lets the server add the whole source graph to every get_parent_map answer.
 
-  sess <tipCoherent T|F> <tagsOwn T|F> <tagsReal T|F> <src> <sops>
+  sess <tipCoherent T|F> <tagsOwn T|F> <tagsReal T|F> <src> <sops>          (leaveReset = T)
+  sessv <tipCoherent> <tagsOwn> <tagsReal> <leaveReset T|F> <src> <sops>
       →  L=<res@obj;…>|<state> R=<res@obj;…>|<state> S=<res;…>|<state>
-sops = `;`-joined: lw | lr | ul | tp | st:<revno>:<rev> | pl:<T|F>:<revno>:<rev>:<name=rev,…|-> | tg:<name>:<rev> | tD
-obj  = <u|r|w><count>/<tip cache>/<tags cache>/<real T|F>/<VFS branch tip cache>/<VFS branch tags cache>
+sops = `;`-joined: lw | lr | ul | lt:<T|F> (lock_write(token)) | lv | dl (leave / dont_leave_lock_in_place) |
+       ol | ou (the second holder locks / unlocks) | tp | st:<revno>:<rev> | pl:<T|F>:<revno>:<rev>:<name=rev,…|-> | tg:<name>:<rev> | tD
+res@obj@<physical lock T|F> per operation;
+obj  = <u|r|w><count><L if write-locked with the leave flag set>/<tip cache>/<tags cache>/<real T|F>/<VFS branch tip cache>/<VFS branch tags cache>
        (caches: `~` = empty, tip `n:rev`, tags sorted `name=rev,…` or `-`)
 L = the local object, R = the remote object of the given variant, S = the cache-free specification.
 -/
@@ -85,6 +88,11 @@ def parseSOp (s : String) : Option SOp :=
   | ["lw"] => some .lockW
   | ["lr"] => some .lockR
   | ["ul"] => some .unlock
+  | ["lt", g] => do pure (.lockTok (← parseBool g))
+  | ["lv"] => some .leave
+  | ["dl"] => some .dontLeave
+  | ["ol"] => some .ownerLock
+  | ["ou"] => some .ownerUnlock
   | ["tp"] => some .tip
   | ["st", n, r] => do pure (.setTip (← n.toNat?) (← fromHex r))
   | ["pl", ow, n, r, tg] => do pure (.pull (← parseBool ow) (← n.toNat?) (← fromHex r) (← parseTags tg))
@@ -106,7 +114,7 @@ def showMode : Mode → String
   | .w => "w"
 
 def showObj (o : Obj) : String :=
-  s!"{showMode o.lk.mode}{o.lk.count}/{showTipC o.tipC}/{showTagsC o.tagsC}/{showBool o.real}/" ++
+  s!"{showMode o.lk.mode}{o.lk.count}{if o.lk.mode == .w && o.lk.leave then "L" else ""}/{showTipC o.tipC}/{showTagsC o.tagsC}/{showBool o.real}/" ++
   s!"{showTipC o.realTipC}/{showTagsC o.realTagsC}"
 
 /-- run a session, recording the object after every operation -/
@@ -115,22 +123,25 @@ def traceSess (step : Obj → St → SOp → Res × Obj × St) : Obj → St → 
   | o, st, op :: ops =>
     let (r, o1, s1) := step o st op
     let (rs, s2) := traceSess step o1 s1 ops
-    (s!"{showRes r}@{showObj o1}" :: rs, s2)
+    (s!"{showRes r}@{showObj o1}@{showBool s1.lock.isSome}" :: rs, s2)
 
 def showTrace (r : List String × St) : String :=
   (if r.1.isEmpty then "-" else ";".intercalate r.1) ++ "|" ++ showSt r.2
 
+def handleSess (tc go gr lr src ops : String) : String :=
+  match parseBool tc, parseBool go, parseBool gr, parseBool lr, parseGraph src,
+      (if ops == "-" then some [] else (ops.splitOn ";").mapM parseSOp) with
+  | some tc, some go, some gr, some lr, some src, some ops =>
+    let v : Variant := { tipCoherent := tc, tagsOwn := go, tagsReal := gr, leaveReset := lr }
+    let l := traceSess (lsStep src) {} St.init ops
+    let r := traceSess (rsStep v src (src.map (·.1))) {} St.init ops
+    let sp := runSpec src {} St.init ops
+    s!"L={showTrace l} R={showTrace r} S={showRun (sp.1, sp.2.2)}"
+  | _, _, _, _, _, _ => "bad-op"
+
 def handle : List String → String
-  | ["sess", tc, go, gr, src, ops] =>
-    match parseBool tc, parseBool go, parseBool gr, parseGraph src,
-        (if ops == "-" then some [] else (ops.splitOn ";").mapM parseSOp) with
-    | some tc, some go, some gr, some src, some ops =>
-      let v : Variant := { tipCoherent := tc, tagsOwn := go, tagsReal := gr }
-      let l := traceSess (lsStep src) {} St.init ops
-      let r := traceSess (rsStep v src (src.map (·.1))) {} St.init ops
-      let sp := runSpec src {} St.init ops
-      s!"L={showTrace l} R={showTrace r} S={showRun (sp.1, sp.2.2)}"
-    | _, _, _, _, _ => "bad-op"
+  | ["sess", tc, go, gr, src, ops] => handleSess tc go gr "T" src ops
+  | ["sessv", tc, go, gr, lr, src, ops] => handleSess tc go gr lr src ops
   | ["run", fx, src, ops] =>
     match parseBool fx, parseGraph src, (if ops == "-" then some [] else (ops.splitOn ";").mapM parseOp) with
     | some fx, some src, some ops =>
